@@ -69,6 +69,14 @@ fn deep_doc() -> Vec<u8> {
     let first = fb.section.get(&20).cloned().unwrap();
     fb.add(20, 0, &Val::stream(vec![("Filter", Val::name("ASCIIHexDecode"))], b"7365636f6e64>".to_vec()));
     fb.section.insert(22, first);
+    // two JBIG2 streams naming each other as globals (an optional, eagerly loaded reference that is not a /Parent)
+    fb.add(30, 0, &Val::stream(vec![("Filter", Val::name("JBIG2Decode")), ("DecodeParms", Val::dict(vec![("JBIG2Globals", Val::r(31))]))], vec![0, 1]));
+    fb.add(31, 0, &Val::stream(vec![("Filter", Val::name("JBIG2Decode")), ("DecodeParms", Val::dict(vec![("JBIG2Globals", Val::r(30))]))], vec![2, 3]));
+    // a font whose optional /ToUnicode leads through an object that is nothing but a reference to an object that
+    // does not exist (49 lies in a gap of the table)
+    fb.add(40, 0, &Val::dict(vec![("Type", Val::name("Font")), ("Subtype", Val::name("Type1")), ("BaseFont", Val::name("Courier")), ("ToUnicode", Val::r(41))]));
+    fb.add(41, 0, &Val::r(49));
+    fb.add(50, 0, &Val::Int(50));
     fb.finish_table(&[("Root", Val::r(1))], Split::Runs);
     fb.bytes()
 }
@@ -93,6 +101,12 @@ pub fn alphabet_deep() -> Vec<Call> {
         a.push((Kind::StreamData, n));
         a.push((Kind::GetStream, n));
     }
+    for n in [30u64, 31] {
+        a.push((Kind::GetStream, n));
+    }
+    a.push((Kind::GetFont, 40));
+    a.push((Kind::Resolve, 41));
+    a.push((Kind::GetPrimitive, 41));
     a.push((Kind::GetPage, 0));
     a
 }
@@ -283,7 +297,13 @@ where
             Err(x) => e(&x),
         },
         Kind::GetStream => match r.get::<Stream<()>>(Ref::new(pr)) {
-            Ok(s) => format!("Stream(len={}, filters={})", s.len(), s.info.get_filters().len()),
+            Ok(s) => {
+                // how many JBIG2 globals streams hang below each other in the typed value
+                fn globals_below(s: &Stream<()>) -> usize {
+                    s.info.filters.iter().map(|f| match f { pdf::enc::StreamFilter::JBIG2Decode(p) => p.globals.as_ref().map(|g| 1 + globals_below(g)).unwrap_or(0), _ => 0 }).max().unwrap_or(0)
+                }
+                format!("Stream(len={}, filters={}, globals-below={})", s.len(), s.info.get_filters().len(), globals_below(&s))
+            }
             Err(x) => e(&x),
         },
         Kind::GetPrimitive => match r.get::<pdf::primitive::Primitive>(Ref::new(pr)) {
